@@ -922,11 +922,14 @@ def nontriv(calls):
 TRUSTED = [py2lean.trusted_note("landscaper"), py2lean.trusted_note("imager"), py2lean.trusted_note("image")]
 PROP_FILES = ["PersimVerif/Props/C18.lean"] + py2lean.prop_files("landscaper") + [
     f for f in py2lean.prop_files("imager") if f not in py2lean.prop_files("landscaper")] + py2lean.prop_files("image")
+# landscape engine (py2lean_landscape.py): PersistenceLandscaper.transform
+TRUSTED += [py2lean.trusted_note("pltransform")]
+PROP_FILES += [f for f in py2lean.prop_files("pltransform") if f not in PROP_FILES]
 
 
 def pre_build(ctx):
     """source translator: regenerate Generated/Src*.lean from PERSIM_ROOT's source"""
-    py2lean.pre_build(ctx, ("landscaper", "imager", "image"))       # image: `transform` / `fit_transform` of the imager
+    py2lean.pre_build(ctx, ("landscaper", "imager", "image", "pltransform"))   # image: `transform` / `fit_transform` of the imager
 
 
 def run(ctx):
@@ -1181,3 +1184,4 @@ MANIFEST = {
     "technique": "Lean 4 theorems over state-machine models + differential correspondence on call sequences + metamorphic tests",
 }
 MANIFEST["note"] += " " + py2lean.manifest_note("landscaper") + " " + py2lean.manifest_note("imager") + " " + py2lean.manifest_note("image")
+MANIFEST["note"] += " " + py2lean.manifest_note("pltransform")
